@@ -696,6 +696,14 @@ def deleg_slice(ctx, facts, fid, finisher=None, rule="DELEG"):
         if not _before(fn, fl[0]["match"], fc):
             ctx.violation(rule, fid, "finisher order", hirq.loc(fc), "the finisher must come after the per-element loop")
             return
+        # nothing but a rejection (`return Err(..)`) may leave the function before the finisher has run
+        for x in user_nodes(fn):
+            if x["k"] == "Ret" and _before(fn, x, fc) and not t.contains(fc, x):
+                val = hirq.show(x["e"])[:40] if "e" in x else ""
+                if "Err" not in val:
+                    ctx.violation(rule, fid, "return before the finisher", hirq.loc(x),
+                                  "`return %s` leaves %s before self.%s has run (taken when %s): a sketch with empty bins is handed back as finished" % (val, short(fid), finisher, nf.control_facts(t, x)[:1]))
+                    return
         allowed_mut.add(id(fc))
         from . import C09 as _C09
         if not wrapped:
